@@ -12,6 +12,8 @@ def strip(s):
 
 def run(ctx):
     q = ctx.quick
+    if ctx.replay and any(s.get("ev") in ("Call", "TokenDue") for s in json.load(open(ctx.replay))["case"]["steps"]):
+        return run_callers(ctx)
     c = dict(MaxMsgs=2 if q else 3, MaxRenews=1, DevSingleKeySlot=False, AllowForged=True, MaxDepth=12 if q else 16)
     # the corrected design (previous token kept, new token used for sending only once it was seen) satisfies the property
     ctx.model_check("design", "MCRenew", dict(c, MaxMsgs=3, MaxDepth=16), ["C14"], view="MView")
@@ -77,3 +79,85 @@ def run(ctx):
     for idx in (0, len(cases) // 2, len(cases) - 1):
         ctx.sample([strip(s) for s in cases[idx]["steps"]])
     log("[renew] %d cases, %d steps, %d verdicts, %d drifting" % (len(cases), nsteps, len(verdicts), len(drift)))
+    run_callers(ctx)
+
+
+def run_callers(ctx):
+    """The client side driven through the real AsyncSecureChannel::send by several concurrent caller tasks (RenewSend.tla)."""
+    q = ctx.quick
+    c = dict(MaxMsgs=3, MaxRenews=1, DevSingleKeySlot=False, AllowForged=False, Callers={1, 2}, DevBeginOutsideLock=False, MaxDepth=20)
+    ctx.model_check("send_design", "MCRenewSend", c, ["C14"], view="MView", spec="MSpec")
+    if not q:
+        ctx.model_check("send_design_three_callers", "MCRenewSend", dict(c, Callers={1, 2, 3}, MaxRenews=2, MaxDepth=24), ["C14"], view="MView",
+                        spec="MSpec", timeout=2400)
+    ctx.model_check("send_dev_begin_outside_lock", "MCRenewSend", dict(c, DevBeginOutsideLock=True), ["C14"], view="MView", spec="MSpec",
+                    expect_violation="C14")
+    pinned = dict(c, DevSingleKeySlot=True)
+    ctx.model_check("send_dev_single_key_slot", "MCRenewSend", pinned, ["C14"], view="MView", spec="MSpec", expect_violation="C14")
+    h, r = ctx.gen("callers", "GenRenewSend", dict(pinned, MaxMsgs=2, MaxDepth=14 if q else 16), timeout=1500)
+    hs = take(h, 1500 if q else 30000, ctx.seed)
+    n = 150 if q else 3000
+    h2, r = ctx.gen("callers_random", "GenRenewSend", dict(pinned, Callers={1, 2, 3}, MaxMsgs=5, MaxRenews=2, MaxDepth=40),
+                    simulate="num=%d" % max(20, n // 4))
+    hs += take(h2, n, ctx.seed)
+    cases = [{"case": i + 1, "steps": x} for i, x in enumerate(hs)]
+    if ctx.replay:
+        rc = json.load(open(ctx.replay))["case"]
+        if not any(s.get("ev") in ("Call", "TokenDue") for s in rc["steps"]):
+            return
+        cases = [dict(rc, case=1)]
+    cpath = ctx.write_cases("renewsend", cases)
+    raw = ctx.run("renewsend", cpath)
+    # records of steps the harness could not perform (the real objects are not where the model is) are not observations
+    obs = raw.replace(".obs.ndjson", ".judged.obs.ndjson")
+    stuck = {}
+    with open(obs, "w") as f:
+        for line in open(raw):
+            o = json.loads(line)
+            if "harness" in o:
+                stuck[o["case"]] = (o["i"], o["harness"])
+            else:
+                f.write(line)
+    verdicts = ctx.judge("renewsend", "TraceRenew", obs, {})
+    by = {x["case"]: x for x in cases}
+    exp = {(x["case"], i + 1): s for x in cases for i, s in enumerate(x["steps"])}
+    nsteps, drift, bad = 0, [], set()
+    for line in open(obs):
+        o = json.loads(line)
+        e = exp.get((o["case"], o["i"]))
+        if o.get("fail") == "setup":
+            raise ToolError("renewsend setup failed: %s" % o.get("site"))
+        if e is None or o["case"] in bad:
+            continue
+        nsteps += 1
+        did_ok = o["ev"] not in ("Call", "Resume") or o.get("did") == e["k"]
+        if canon(e["acc"]) != canon(o.get("acc")) or o.get("fail") != "none" or not did_ok:
+            bad.add(o["case"])
+            drift.append({"case": o["case"], "i": o["i"], "steps": [strip(s) for s in by[o["case"]]["steps"]][:o["i"]],
+                          "expected": {"acc": e["acc"], "did": e["k"]}, "observed": {k: o.get(k) for k in ("acc", "did", "fail", "site")}})
+    unexplained = [c_ for c_ in stuck if c_ not in bad]
+    if unexplained:
+        raise ToolError("the harness could not perform a step of %d cases that followed the model so far, e.g. case %s step %s: %s"
+                        % (len(unexplained), unexplained[0], stuck[unexplained[0]][0], stuck[unexplained[0]][1]))
+    for v in verdicts:
+        x = by.get(v["case"])
+        sig = "C14:%s" % v["clause"] + ("" if v["case"] not in bad else ":not-explained-by-single-key-slot-model")
+        ctx.add_violation(sig, "%s at step %s of case %s (callers)" % (v["clause"], v["i"], v["case"]),
+                          dict(x, steps=x["steps"]) if x else None, engine="renewsend")
+    seen, nt = set(), 0
+    for x in cases:
+        k = canon([strip(s) for s in x["steps"]])
+        if k not in seen:
+            seen.add(k)
+            st = x["steps"]
+            nt += 1 if any(s["ev"] == "Call" and s["k"] == "wait" for s in st) or sum(1 for s in st if s["ev"] == "Call") >= 2 else 0
+    ctx.cov["evaluations"] += len(cases)
+    ctx.cov["distinct_nontrivial"] += nt
+    ctx.cov["traces_validated_against_impl"] += len(cases)
+    ctx.cov["rule"] += ("; callers: every behaviour of RenewSend.tla (2 caller tasks running the real AsyncSecureChannel::send, one poll per "
+                        "action: token due / lock taken or waited for / renew begun / response handed over; client transport task and server "
+                        "tasks as above) up to the depth bound plus simulation with 3 callers and 2 renewals, replayed on a real client "
+                        "Session whose futures the harness polls; non-trivial = two calls or a caller that waits for the lock")
+    ctx.notes["callers_steps_replayed"] = nsteps
+    ctx.notes["callers_drift"] = {"cases_differing_from_pinned_tree_model": len(drift), "first": drift[:3]}
+    log("[renewsend] %d cases, %d steps, %d verdicts, %d drifting" % (len(cases), nsteps, len(verdicts), len(drift)))
